@@ -85,3 +85,39 @@ def mentions(t, pred):
         if pred(x):
             return True
     return False
+
+
+def field_writers(facts, adt_path, crates=None):
+    """{field: {function path: [kinds]}} for every non-test body that may write a field of the struct:
+    direct assignment through a place mentioning the field, a mutable borrow of such a place, a call whose
+    destination is such a place, or an aggregate constructing the struct ('ctor')."""
+    out = {}
+
+    def note(field, body, kind):
+        out.setdefault(field, {}).setdefault(body["path"], []).append(kind)
+
+    for bid, b in facts.bodies.items():
+        crate, test = facts.body_unit[bid]
+        if test or (crates and crate not in crates):
+            continue
+        for blk in b["blocks"]:
+            for s in blk["stmts"]:
+                if s["k"] != "assign":
+                    continue
+                for pe in s["place"]["p"]:
+                    if pe["k"] == "field" and pe.get("owner") == adt_path:
+                        note(pe["name"], b, "assign")
+                rv = s["rv"]
+                if rv["k"] in ("ref", "rawptr") and rv["mut"]:
+                    for pe in rv["place"]["p"]:
+                        if pe["k"] == "field" and pe.get("owner") == adt_path:
+                            note(pe["name"], b, "borrow-mut")
+                if rv["k"] == "agg" and rv.get("adt") == adt_path:
+                    for n in rv["field_names"]:
+                        note(n, b, "ctor")
+            t = blk["term"]
+            if t["k"] == "call":
+                for pe in t["dest"]["p"]:
+                    if pe["k"] == "field" and pe.get("owner") == adt_path:
+                        note(pe["name"], b, "call-dest")
+    return out
